@@ -44,10 +44,14 @@ void harness(void) {
 	s[g_b32_len] = '\0';
 	g_b32_str = s;
 	g_b32_calls = 0;
-	{ size_t w = nondet_size(); __CPROVER_assume(w / 8 < g_b32_len * 5 / 8 + 2); spec_b32_dec_init(&g_b32, w); }
+	g_b32_wbit = nondet_size();
+	__CPROVER_assume(g_b32_wbit / 8 < g_b32_len * 5 / 8 + 2);   /* witness inside the allocation, so that invariants may read it */
+	spec_b32_dec_init(&g_b32);
 	res = KSI_base32Decode(s, &out, &out_len);
 	if (res == KSI_OK) REACH("decoded"); else REACH("refused");
-	if (res == KSI_OK && out_len > 3 && g_b32.wbit == 17 && g_b32.wval == 1) REACH("decoded several bytes, witness bit set");
+	/* out / out_len are replaced by fresh objects by the contract's is_fresh: reachability is stated on the ghost state */
+	if (res == KSI_OK && g_b32.bits >= 40 && g_b32_wbit == 17 && g_b32.wval == 1) REACH("decoded several bytes, witness bit set");
+	if (res == KSI_OK && g_b32.may_reject) REACH("digit outside 2-7 ignored");
 	if (res == KSI_OK && g_b32.ended) REACH("stopped at padding");
 	if (res == KSI_INVALID_FORMAT) REACH("invalid format");
 }
@@ -57,7 +61,7 @@ void harness(void) {
 void harness(void) {
 	const unsigned char *d; char *out = NULL; int res;
 	size_t n = nondet_size(), g = nondet_size();
-	g_b32e_k = nondet_size(); g_b32e_j = nondet_size();
+	g_b32e_k = nondet_size(); g_b32e_j = nondet_size(); g_b32e_exp = (char)nondet_uchar();
 #if defined(DOM_G0)
 	__CPROVER_assume(g == 0);
 #elif defined(DOM_PADGROUP)
